@@ -684,7 +684,9 @@ func (g *gen) mutate(valid map[string]any, v1 bool, kind string) (m mutated, ok 
 			return m, false
 		}
 		it["nameSelector"] = map[string]any{"matchNames": []any{"pod-0"}}
-		it["fieldSelector"] = map[string]any{"matchExpressions": []any{map[string]any{"field": "metadata.name", "operator": "Equals", "value": "pod-1"}}}
+		// every operator spelling, any position among other requirements (the rule does not depend on either)
+		nexp := 1 + g.r.Intn(3)
+		it["fieldSelector"] = map[string]any{"matchExpressions": fieldExprs(map[string]any{"field": "metadata.name", "operator": g.pick(fieldOps), "value": "pod-1"}, g.r.Intn(nexp), nexp)}
 		return mutatedOf(m, "name-and-field-selector"), true
 	case "bad-api-version":
 		if !v1 {
@@ -891,6 +893,16 @@ func Gen(r *core.Rng, tier string) ([]core.In[Input], bool) {
 		nValid, nFault, nRaw = 1500, 3000, 6000
 	}
 	ins := g.corpus()
+	// inter-field rules: systematic clash / neighbour pairs first (small documents), then planted into random documents
+	ins = append(ins, g.interfield(tier)...)
+	nIF := 120
+	switch tier {
+	case "thorough":
+		nIF = 6000
+	case "search":
+		nIF = 1000
+	}
+	ins = append(ins, g.interfieldRandom(nIF)...)
 	var texts []string
 	for i := 0; i < nValid; i++ {
 		v1 := !g.r.Chance(25)
